@@ -304,7 +304,7 @@ func c19set(c *core.Ctx) {
 					isHas := false
 					switch x := v.(type) {
 					case *ssa.Call:
-						if sc := x.Call.StaticCallee(); sc != nil && sc.Name() == "has" && len(x.Call.Args) == 2 && x.Call.Args[1] == mu.Key {
+						if sc := x.Call.StaticCallee(); sc != nil && pinnedBare(sc) == "has" && len(x.Call.Args) == 2 && x.Call.Args[1] == mu.Key {
 							isHas = true
 						}
 					case *ssa.Extract:
